@@ -24,7 +24,8 @@ import (
 // Script (one real HttpServer per case):
 //
 //	cfg pfx=</a/b|-> auth=0|1 proof=0|1 pkce=0|1 upload=0|1 introspect=0|1 sticky=0|1
-//	    describe=0|1 landing=0|1 notfound=0|1 custom=<VERB:/pattern,...|->
+//	    describe=0|1 landing=0|1 notfound=0|1 custom=<VERB:/pattern,...|-> failed=<failing setter calls|->
+//	fail <failing setter call>      (made on the live server between requests)
 //	req <VERB> <path> inner=<behaviour of the mock authenticator; ctx+<kind> = (non-nil context, that error)> proof=<absent|valid|bad>
 //	    ct=<arrow|other> body=<kind> sess=<absent|garbage|fresh>
 //
@@ -173,6 +174,7 @@ type c22Server struct {
 	cfg     map[string]string
 	pfx     string
 	customs []string // "VERB:/pattern"
+	metaSet bool     // SetOAuthResourceMetadata succeeded at some point
 	client  *vgirpc.HttpClient
 	tr      *c22Transport
 }
@@ -366,6 +368,16 @@ func c22Build(cfgLine string) (s *c22Server, err error) {
 			s.customs = append(s.customs, c)
 		}
 	}
+	if pk := cfg["pkce"]; pk == "1" {
+		s.metaSet = true
+	}
+	if f, ok := cfg["failed"]; ok && f != "-" {
+		for _, name := range strings.Split(f, ",") {
+			if err := s.failingCall(name); err != nil {
+				return nil, err
+			}
+		}
+	}
 	h.InitPages()
 	s.tr = &c22Transport{s: s}
 	cl, err := vgirpc.NewHttpClient("http://c22.test", vgirpc.WithClientPrefix(pfx),
@@ -375,6 +387,42 @@ func c22Build(cfgLine string) (s *c22Server, err error) {
 	}
 	s.client = cl
 	return s, nil
+}
+
+// failingCall makes a setter call that the setter's own validation rejects. The property must not
+// care: a failed configuration attempt leaves the server (its authenticator in particular) as it was.
+func (s *c22Server) failingCall(name string) error {
+	var err error
+	switch name {
+	case "pkce-nometa":
+		if s.cfg["pkce"] == "1" || s.metaSet {
+			return nil // not a failing call on this server (metadata present): skip
+		}
+		err = s.h.SetOAuthPkce(vgirpc.OAuthPkceConfig{})
+	case "pkce-noclient":
+		if s.cfg["pkce"] == "1" {
+			return nil
+		}
+		if merr := s.h.SetOAuthResourceMetadata(&vgirpc.OAuthResourceMetadata{
+			Resource: "https://api.example.com" + s.pfx, AuthorizationServers: []string{"http://127.0.0.1:1"}}); merr != nil {
+			return merr
+		}
+		s.metaSet = true
+		err = s.h.SetOAuthPkce(vgirpc.OAuthPkceConfig{Scope: "openid"})
+	case "oauthmeta-invalid":
+		err = s.h.SetOAuthResourceMetadata(&vgirpc.OAuthResourceMetadata{Resource: ""})
+	case "introspect-noresolver":
+		err = s.h.EnableTokenIntrospection(vgirpc.TokenIntrospectionConfig{Principals: []string{"introspector"}})
+	case "introspect-noprincipals":
+		err = s.h.EnableTokenIntrospection(vgirpc.TokenIntrospectionConfig{
+			Resolver: func(string) (vgirpc.TokenIdentity, bool, error) { return vgirpc.TokenIdentity{}, false, nil }})
+	default:
+		return fmt.Errorf("unknown failing call %q", name)
+	}
+	if err == nil {
+		return fmt.Errorf("%s was expected to be rejected by the setter but succeeded", name)
+	}
+	return nil
 }
 
 func (s *c22Server) close() {
@@ -566,6 +614,21 @@ func c22Exec(c *Case) {
 			s = ns
 			c22Cur = s.w
 			c.Stat("cfg")
+			c.Out(l, "ok")
+		case "fail":
+			if s == nil {
+				c.Out(l, "err:no-cfg")
+				continue
+			}
+			if len(f) != 2 {
+				c.Out(l, "err:bad-op")
+				continue
+			}
+			if err := s.failingCall(f[1]); err != nil {
+				c.Out(l, "err:fail "+err.Error())
+				continue
+			}
+			c.Stat("failing-setter-call")
 			c.Out(l, "ok")
 		case "req":
 			if s == nil {
@@ -828,6 +891,8 @@ func c22Request(c *Case, s *c22Server, line, verb, path string, kv map[string]st
 
 // ---------------------------------------------------------------- generation
 
+var c22FailingCalls = []string{"pkce-nometa", "pkce-noclient", "oauthmeta-invalid", "introspect-noresolver", "introspect-noprincipals"}
+
 var (
 	c22Prefixes = []string{"-", "-", "/vgi", "/vgi", "/a/b", "/api/v1/x", "/describe", "/init", "/exchange/x", "/.well-known", "/u1"}
 	c22Customs  = []string{"POST:/custom", "GET:/custom/{id}", "*:/zz/deep/", "DELETE:/admin", "POST:{P}/__test_drain__",
@@ -856,6 +921,7 @@ type c22Cfg struct {
 	pfx                                                                      string
 	auth, proof, pkce, upload, introspect, sticky, describe, landing, notfnd bool
 	customs                                                                  []string
+	failed                                                                   []string // failing setter calls made after the configuration
 }
 
 func (k c22Cfg) line() string {
@@ -863,9 +929,13 @@ func (k c22Cfg) line() string {
 	if len(k.customs) > 0 {
 		cu = strings.Join(k.customs, ",")
 	}
-	return fmt.Sprintf("cfg pfx=%s auth=%s proof=%s pkce=%s upload=%s introspect=%s sticky=%s describe=%s landing=%s notfound=%s custom=%s",
+	fl := "-"
+	if len(k.failed) > 0 {
+		fl = strings.Join(k.failed, ",")
+	}
+	return fmt.Sprintf("cfg pfx=%s auth=%s proof=%s pkce=%s upload=%s introspect=%s sticky=%s describe=%s landing=%s notfound=%s custom=%s failed=%s",
 		k.pfx, b01(k.auth), b01(k.proof), b01(k.pkce), b01(k.upload), b01(k.introspect), b01(k.sticky), b01(k.describe),
-		b01(k.landing), b01(k.notfnd), cu)
+		b01(k.landing), b01(k.notfnd), cu, fl)
 }
 
 func (k c22Cfg) p() string {
@@ -923,6 +993,12 @@ func c22RandCfg(r *Rng) c22Cfg {
 	k.describe = r.Chance(75)
 	k.landing = r.Chance(75)
 	k.notfnd = r.Chance(70)
+	if r.Chance(30) {
+		k.failed = append(k.failed, Pick(r, c22FailingCalls))
+		if r.Chance(30) {
+			k.failed = append(k.failed, Pick(r, c22FailingCalls))
+		}
+	}
 	n := r.Intn(4)
 	seen := map[string]bool{}
 	for i := 0; i < n; i++ {
@@ -996,6 +1072,33 @@ func c22RandReq(r *Rng, k c22Cfg) string {
 	return c22Req(verb, path, inner, proof, ct, body, sess)
 }
 
+// c22WithInner rewrites the inner= (and, for an admitted request behind the proof gate, proof=) field
+func c22WithInner(line, inner string, validProof bool) string {
+	f := strings.Fields(line)
+	for i, w := range f {
+		if strings.HasPrefix(w, "inner=") {
+			f[i] = "inner=" + inner
+		}
+		if validProof && strings.HasPrefix(w, "proof=") {
+			f[i] = "proof=valid"
+		}
+	}
+	return strings.Join(f, " ")
+}
+
+func c22RejectFor(k c22Cfg) []string {
+	if !k.proof {
+		return c22RejectInners
+	}
+	var out []string
+	for _, in := range c22RejectInners {
+		if in != "nilnil" {
+			out = append(out, in)
+		}
+	}
+	return out
+}
+
 func c22Gen(g *Gen) {
 	r := g.Rng
 	// (a) random configurations, mixed targeted + probing requests
@@ -1005,7 +1108,16 @@ func c22Gen(g *Gen) {
 		lines := []string{k.line()}
 		m := r.Range(10, 28)
 		for j := 0; j < m; j++ {
-			lines = append(lines, c22RandReq(r, k))
+			if j > 0 && r.Chance(5) {
+				lines = append(lines, "fail "+Pick(r, c22FailingCalls))
+			}
+			l := c22RandReq(r, k)
+			if k.auth && r.Chance(18) {
+				// request history on one route: admitted first, then the same request refused
+				lines = append(lines, c22WithInner(l, Pick(r, []string{"anon", "accept:alice", "accept:introspector"}), k.proof))
+				l = c22WithInner(l, Pick(r, c22RejectFor(k)), false)
+			}
+			lines = append(lines, l)
 		}
 		g.Case(lines...)
 	}
@@ -1022,6 +1134,13 @@ func c22Gen(g *Gen) {
 			if strings.HasSuffix(t[1], "__session__") {
 				sess = "fresh"
 			}
+			// request history per route: admitted, refused in every way, admitted again — a route that
+			// remembers an admitted answer must not replay it to a refused caller
+			pv0 := "absent"
+			if k.proof {
+				pv0 = "valid"
+			}
+			lines = append(lines, c22Req(t[0], t[1], Pick(r, []string{"anon", "accept:alice", "accept:introspector"}), pv0, "arrow", "valid", sess))
 			for _, in := range inners {
 				if k.proof && in == "nilnil" {
 					continue
@@ -1047,6 +1166,10 @@ func c22Gen(g *Gen) {
 		for i := 0; i < 12; i++ {
 			k := c22RandCfg(r)
 			k.auth = true
+			if i%3 == 0 {
+				k.pkce = false // so that the failing SetOAuthPkce calls are failing calls on this server
+				k.failed = []string{c22FailingCalls[(i/3)%len(c22FailingCalls)], "pkce-nometa"}
+			}
 			sweep(k)
 		}
 		return
@@ -1060,6 +1183,9 @@ func c22Gen(g *Gen) {
 			}
 			if mask%5 == 0 {
 				k.describe, k.landing = false, false
+			}
+			if mask%4 == 1 {
+				k.failed = []string{c22FailingCalls[(mask/4)%len(c22FailingCalls)], "pkce-nometa", "pkce-noclient"}
 			}
 			sweep(k)
 		}
